@@ -373,7 +373,9 @@ def bits_expansion(O):
         if p.outcome == "cut":
             r, _ = O.solve(list(p.pc) + [tag == T_BITS] + pre, want_model=False)
             if r == "sat":
-                O.inconclusive("bits expansion cut inside the claimed range: %s" % p.detail)
+                # a loop of the function itself over the bits (not the iterator chain this obligation follows): the code
+                # has another shape - the battery (bits(k, v) for k up to 64, negative and mixed patterns) decides natively
+                raise LookupError("bits expansion runs a loop of its own that is cut inside the claimed range (%s)" % (p.detail or "")[:60])
             continue
         if p.outcome != "return":
             continue
@@ -615,3 +617,12 @@ def variables_first(O):
 def construction_answer_installed(O):
     from . import C04
     C04.construction_answer(O, rep())
+
+
+@obligation("C01/variables-survive-faults", profiles=("dev",),
+            desc="extract_output_values: the variable maps are swapped exactly twice on every path (error paths included), so the "
+                 "bindings and loop frames the following rows are evaluated in are the program's, also after a row whose output "
+                 "extraction failed")
+def variables_survive_faults(O):
+    from . import C04
+    C04.swap_restored(O, rep())
